@@ -274,6 +274,76 @@ def check_head_guards(ctx, F):
             ctx.bad('R4', role, CHAIN, 'sites disagree (expected `remainders %s threshold` everywhere): %s' % (want_rel, detail), key=key)
 
 
+def check_flush_threshold(ctx, F):
+    """The remainders head is flushed exactly when it reaches 2^(State::BITS - P'), where P' is the precision of the coder the
+    function leaves behind: PRECISION for the coding steps, NEW_PRECISION for a precision change.  The rule inlines every
+    private helper (so it does not matter whether the test sits in the caller or in the helper), finds each write of the
+    head's low word to the remainders backend, and reads the test that guards it in canonical form `head >= 2^E`.  A test
+    written on a left-shifted head is refuted: the shift drops the head's top bits for large precision steps."""
+    from vlib import inline
+    import props.C18 as c18
+    is_head = lambda x: c18._is_field(x, 'heads', 'remainders')
+    n = 0
+    for b in F.bodies:
+        if b.promoted is not None or b.self_adt != CHAIN or b.dk != 'AssocFn' or '::tests::' in b.defpath or not b.file.endswith('stream/chain.rs'):
+            continue
+        if b.vis != 'pub' and b.impl_trait is None and not b.name.endswith('_unchecked'):
+            continue       # private helpers are looked at inside their callers
+        try:
+            b2, _ = inline.inline_body(F, b, set())
+            ev = sym.Evaluator(b2, max_paths=4000)
+            paths = ev.run()
+        except Exception:
+            continue
+        flushes = []
+        for r in paths:
+            for i, e in enumerate(r.events):
+                if e['kind'] == 'call' and e['callee'].endswith('WriteWords::write') and e['args'] and e['args'][0][0] == 'ref' and ('f', 'remainders') in e['args'][0][1] and ('f', 'heads') not in e['args'][0][1] \
+                        and sym.contains(e['args_val'][1], is_head) and not e.get('loops'):
+                    flushes.append((r, i, e))
+        if not flushes:
+            continue
+        sig = b.raw.get('sig') or ''
+        newp = 'NEW_PRECISION' in sig.split('->')[-1]
+        want = pow2._exp_add(pow2.bits_of('State'), ({sym.tkey(('c', 'NEW_PRECISION' if newp else 'PRECISION')): (1, ('c', 'NEW_PRECISION' if newp else 'PRECISION'))}, 0), -1)
+        n += 1
+        ctx.touch(b)
+        key = 'R10/flush-threshold/' + b.defpath
+        role = 'the remainders head is flushed exactly at 2^(State::BITS - %s)' % ('NEW_PRECISION' if newp else 'PRECISION')
+        bad = unk = None
+        for r, i, e in flushes:
+            k = rules.preds_before(r, i)
+            guard = None
+            for t, v, _ in r.preds[:k]:
+                if not sym.contains(t, is_head):
+                    continue
+                if sym.contains(t, lambda x: isinstance(x, tuple) and x and x[0] == 'bin' and x[1] == 'Shl' and sym.contains(x[2], is_head)):
+                    guard = ('shl', t)
+                    continue
+                c = pow2.below_pow2(t, v, lambda x: pow2.bits_of('State'))
+                if c is not None and sym.contains(c[0], is_head):
+                    guard = ('thr', c)        # the tested value is the head, or the value just computed from it and stored as the new head
+            if guard is None:
+                unk = unk or 'a flush without a recognisable test of the head'
+            elif guard[0] == 'shl':
+                bad = 'the test that decides the flush compares a *left-shifted* head (%s): for a precision step larger than the old precision the shift drops the top bits of the head, the test misjudges such heads and the flush is skipped (debug builds panic on the shift)' % sym.show(guard[1])[:100]
+            else:
+                x, E, holds = guard[1]
+                if holds:
+                    unk = unk or 'the flush happens on the outcome `head < 2^E`'
+                elif sym.affine_str(E) != sym.affine_str(want):
+                    bad = 'the head is flushed when it reaches 2^(%s), but the coder this function leaves behind needs head < 2^(%s): %s' % (
+                        sym.affine_str(E), sym.affine_str(want), 'the test looks at the old precision, so a precision increase never flushes and the next symbols overflow the head' if newp else 'the thresholds disagree')
+        if bad:
+            ctx.bad('R10', role, b.defpath, bad, key=key, loc=rules.loc(b))
+        elif unk:
+            ctx.unresolved('R10', role, b.defpath, unk, key=key)
+        else:
+            ctx.ok('R10', role, b.defpath, '%d flush path(s) under head >= 2^(%s)' % (len(flushes), sym.affine_str(want)), key=key)
+    if n == 0:
+        ctx.unresolved('R10', 'flush threshold', CHAIN, 'no function flushes the remainders head', key='R10/flush-threshold/floor')
+
+
 def check_heads_closed(ctx, F):
     a = F.adts.get(HEADS)
     if a is None:
@@ -760,6 +830,7 @@ def run(ctx):
     import props.C04 as c04
     c04.check_top_word_nonzero(ctx, F, method_of(F, 'from_compressed'), CHAIN + '::from_compressed', 'into_compressed')
     check_head_guards(ctx, F)
+    check_flush_threshold(ctx, F)
     if ctx.tier == 'thorough':
         from vlib import witness
         witness.run(ctx, 'C13')
